@@ -218,7 +218,9 @@ def check_forces_diff(ctx, rid):
             r.undecidable(rid, "%s not found" % fid)
             continue
         try:
-            paths = explore(f, is_effect=lambda c: _is_emit_mode_setter(c) or _may_set_any_option(c), max_paths=20000)
+            # every loop is unrolled once (max_visits=2) so that writes inside a loop body and after it are both seen
+            paths = explore(f, is_effect=lambda c: _is_emit_mode_setter(c) or _may_set_any_option(c), max_paths=200000,
+                            max_visits=2)
         except TooManyPaths as e:
             r.undecidable(rid, str(e))
             continue
@@ -232,7 +234,7 @@ def check_forces_diff(ctx, rid):
                     chk = v
             if chk is not True:
                 continue
-            if path.end not in ("ret", "loop"):
+            if path.end != "ret":
                 continue
             n_check += 1
             effs = path.effects
